@@ -30,7 +30,7 @@ macro_rules! compile_register_brrw {
       let addr = $reg.addr();
       let reg = $ctx.alloc_register_for_ptr(addr);
       let borrow = $reg.borrow();
-      let const_id = borrow.compile_const($ctx).unwrap();
+      let const_id = borrow.compile_const($ctx)?;
       $ctx.emit_const_load(reg, const_id);
       reg
     }
@@ -43,7 +43,7 @@ macro_rules! compile_register {
     {
       let addr = $reg.addr();
       let reg = $ctx.alloc_register_for_ptr(addr);
-      let const_id = $reg.compile_const($ctx).unwrap();
+      let const_id = $reg.compile_const($ctx)?;
       $ctx.emit_const_load(reg, const_id);
       reg
     }
@@ -56,7 +56,7 @@ macro_rules! compile_register_mat {
     {
       let addr = $reg.addr();
       let reg = $ctx.alloc_register_for_ptr(addr);
-      let const_id = $reg.compile_const_mat($ctx).unwrap();
+      let const_id = $reg.compile_const_mat($ctx)?;
       $ctx.emit_const_load(reg, const_id);
       reg
     }
